@@ -258,8 +258,11 @@ func crashSignature(stderr string) (sig string, excerpt string) {
 		}
 	}
 	frame := "?"
-	if m := frameRe.FindStringSubmatch(stderr); m != nil {
-		frame = m[1]
+	for _, m := range frameRe.FindAllStringSubmatch(stderr, -1) {
+		if !strings.Contains(m[1], "/vrt.") && !strings.Contains(m[2], "/vrt/") {
+			frame = m[1]
+			break
+		}
 	}
 	ex := stderr
 	if len(ex) > 3000 {
